@@ -521,6 +521,16 @@ fn cap(t: &mut Tape, obs: &mut Obs) -> R {
         }
     }
     if !completed {
+        // refusals keep their documented reasons when the buffer is nearly full: a foreign type is refused for its type, whatever its size
+        let other = if ctype == 0x16 { 0x17 } else { 0x16 };
+        for n in [16640usize, 2, 0] {
+            let data = if other == 0x15 { vec![1, 0] } else { vec![0x42; n] };
+            let got = step(&mut p, &mut m, &Op::Parse(Rec::new(other, 0x0303, data)), "oversize stream, foreign type at the limit")?;
+            calls += 1;
+            ensure!(got == Sum::Error(ErrorKind::Tag), "C07:cap:foreign-not-tag", "a record of another content type ({} bytes) while {} bytes are buffered must be refused with Tag, got {}", n, m.buf.len(), show_sum(&got));
+        }
+        let got = step(&mut p, &mut m, &Op::Parse(Rec::new(0x15, 0x0303, vec![1, 0])), "oversize stream, alert at the limit")?;
+        ensure!(got == Sum::Error(ErrorKind::Tag), "C07:cap:foreign-not-tag", "an alert record while defragmenting must be refused with Tag, got {}", show_sum(&got));
         // exact boundary: a fragment that would bring the buffer to exactly 10 MiB is refused, one byte less is taken
         let room = MAX_DATA - m.buf.len();
         for (n, want_refusal) in [(room, true), (room + 1, true), (room - 1, false), (1, true), (0, false)] {
